@@ -22,6 +22,7 @@ final state, no unexpected exception, reference balance over repetitions, proces
 """
 import gc
 import itertools
+import random
 import sys
 import threading
 import traceback
@@ -37,10 +38,15 @@ OBJ_ENTRIES = ENTRIES[5:]
 POINTS = ['lazy_required', 'providedBy_descriptor', 'uncached_before', 'uncached_after', 'spec_subscribe',
           'generation_property', 'changed_override', 'changed_before', 'factory']
 ACTIONS = ['register', 'register_other_key', 'unregister', 'subscribe', 'unsubscribe', 'register_base', 'rbases', 'irebase',
-           'cdecl', 'rebuild', 'changed', 'relookup_same', 'relookup_other', 'gc_finalizer', 'finalizer_lookup', 'raise']
+           'cdecl', 'rebuild', 'changed', 'relookup_same', 'relookup_other', 'gc_finalizer', 'finalizer_lookup', 'raise',
+           'register_unreadable']
 CACHES = ['cold', 'warm', 'sibling']
+# functions of zope/interface in which a mutation (or a cache refresh) is in flight: where the 'burst' policy places its switches
+BURST_SITES = ['changed', 'changed', 'changed', 'register', 'unregister', 'subscribe', 'unsubscribe', '_setBases', 'rebuild',
+               'add_extendor', 'remove_extendor', 'init_extendors', '_subscribe', '_verify', '__setBases', '_uncached_lookup',
+               '_uncached_lookupAll', '_uncached_subscriptions', '_addSubregistry', '_removeSubregistry', 'unsubscribe', 'dependents']
 BLOCK = 400
-ENUM_NOTE = ('complete product {registry flavour: 2} x {entry point: 9} x {callback point: 9} x {action: 16} x {cache state: 3} '
+ENUM_NOTE = ('complete product {registry flavour: 2} x {entry point: 9} x {callback point: 9} x {action: 17} x {cache state: 3} '
              'restricted to the combinations in which the entry point can reach the callback point; thread schedules are sampled')
 
 
@@ -113,14 +119,42 @@ def generate(seed, mode):
                 t['ops'] = [{'key': 0} for _ in range(o.randint(4, 8))]
             else:
                 t['ops'] = [{'m': ('unreg', 'reg')[j % 2], 'req': [2], 'n': 0, 'v': 0, 'p': 0} for j in range(o.randint(3, 7))]
+    spec_after = not lookup_only and h64(seed, 'spec-change-after-registry-change') % 5 == 0
+    if spec_after:
+        # fault placement: a change of the registry (the lookup object forgets what it is subscribed to and subscribes again on
+        # the next lookup) and later a change of what a looked-up specification extends -- whatever a lookup thread cached while
+        # the first one was in flight must still be discarded by the second
+        pr0 = random.Random(h64(seed, 'spec-after'))
+        how = pr0.choice(['cdecl', 'irebase'])
+        keys[0] = ({'e': pr0.choice([5, 6, 7, 8]), 'req': [1], 'n': 0, 'p': 0} if how == 'cdecl'
+                   else {'e': pr0.randrange(len(ENTRIES)), 'req': [1], 'n': 0, 'p': 0})
+        pre = pre + [{'m': 'reg', 'req': [0], 'n': 0, 'v': 1, 'p': 0}, {'m': 'reg', 'req': [2], 'n': 0, 'v': 2, 'p': 0},
+                     {'m': 'sub', 'req': [0], 'n': 0, 'v': 1, 'p': 0}, {'m': 'sub', 'req': [2], 'n': 0, 'v': 2, 'p': 0}]
+        for t in threads:
+            if t['kind'] == 'lookup':
+                t['ops'] = [{'key': 0 if pr0.random() < 0.8 else pr0.randrange(nkeys)} for _ in range(pr0.randint(2, 5))]
+            else:
+                first = [{'m': pr0.choice(['reg', 'unreg', 'sub', 'regbase']), 'req': [pr0.randrange(3)], 'n': 1, 'v': pr0.randrange(4), 'p': 0}
+                         for _ in range(pr0.randint(1, 2))]
+                t['ops'] = first + [{'m': how, 'req': [0], 'n': 0, 'v': 0, 'p': 0}]
     for t in threads:
         if t['kind'] == 'mutator':
             for j, m in enumerate(t['ops']):
+                if spec_after:
+                    break
                 if h64(seed, 'gc-mutation', j) % 8 == 0:
                     m['m'] = 'gc'          # a collection in the mutator thread: weak reference callbacks fire while lookups are in flight
+    # scheduling policy (swarm knob).  'uniform': every line event is a pre-emption point with probability p_switch.  'burst'
+    # (one world in two): threads have priorities and the highest one runs undisturbed; at one to three *change points* --
+    # the k-th line event inside one of the functions in which a mutation is in flight -- the running thread drops to the
+    # lowest priority, so that the others run whole operations inside that window (a handful of well-placed switches and
+    # long excursions instead of many short ones)
+    pr = random.Random(h64(seed, 'burst-policy'))
+    policy = 'burst' if pr.random() < 0.5 else 'uniform'
+    points = [[pr.choice(BURST_SITES), pr.randint(1, 12)] for _ in range(pr.choice([2, 3, 3, 4]))]
     return {'machine': MACHINE, 'seed': seed, 'part': 'threads',
-            'world': {'flav': flav, 'opcodes': h64(seed, 'opcode-granularity') % 4 == 0, 'keys': keys, 'pre': pre, 'lookup_only': lookup_only, 'late_base_change': lookup_only or w.random() < 0.3,
-                      'p_switch': w.choice([0.05, 0.15, 0.4]), 'sched_seed': w.getrandbits(30), 'warm': w.random() < 0.5},
+            'world': {'policy': policy, 'points': points, 'spec_after': spec_after, 'flav': flav, 'opcodes': h64(seed, 'opcode-granularity') % 4 == 0, 'keys': keys, 'pre': pre, 'lookup_only': lookup_only, 'late_base_change': lookup_only or w.random() < 0.3,
+                      'p_switch': w.choice([0.05, 0.15, 0.4]), 'sched_seed': w.getrandbits(30), 'warm': (w.random() < 0.5) or spec_after},
             'ops': threads}
 
 
@@ -271,8 +305,14 @@ def execute_reenter(program, ctx, mode):
 
         class BaseV(VerifyingAdapterRegistry):
             pass
-        if point == 'generation_property':
+        unreadable = [False]
+
+        class Unreadable(Exception):
+            pass
+        if point == 'generation_property' or (action == 'register_unreadable' and flav == 'V'):
             def gget(self):
+                if unreadable[0]:
+                    raise Unreadable()
                 fire('generation_property')
                 return self.__dict__.get('_gen', 0)
 
@@ -385,6 +425,21 @@ def execute_reenter(program, ctx, mode):
                 del d_
                 S.unregister((R2,), P0, 'fd')
                 return
+            elif action == 'register_unreadable':
+                # the mutation itself fails half-way: a registration in the asked registry while the change counter of the
+                # registry above it cannot be read (a persistent registry whose state cannot be loaded just then).  The
+                # registration is recorded before the lookup object is told, so it counts; the callback swallows the error.
+                m = ('reg', 'S', (R1,), P0, '', 'F2')
+                if flav == 'V':
+                    unreadable[0] = True
+                    try:
+                        apply(B, S, m)
+                    except Unreadable:
+                        ctx.fault('cb-raise-in-change-notification-of-a-mutator')
+                    finally:
+                        unreadable[0] = False
+                    extra.append(m)
+                    return
             elif action == 'raise':
                 raise Injected('from ' + point)
             else:
@@ -765,8 +820,16 @@ def execute_reenter(program, ctx, mode):
 class Scheduler:
     """Real threads, one runnable at a time.  Line events inside traced files are the pre-emption points."""
 
-    def __init__(self, rng, p_switch, trace_dirs, step_cap=4000, opcodes=False):
+    def __init__(self, rng, p_switch, trace_dirs, step_cap=4000, opcodes=False, policy='uniform', points=()):
         self.rng = rng
+        self.policy = policy
+        self.points = {}                  # co_name -> set of k: the k-th event inside that function is a change point
+        for name, k in points:
+            self.points.setdefault(name, set()).add(k)
+        self.site_count = {}
+        self.prio = []
+        self.waiting = {}                 # thread -> the simulated lock it could not get
+        self.bursts = 0
         self.opcodes = opcodes            # pre-empt between bytecodes instead of between lines (splits `x += 1`, `a[k] = f()` ...)
         self.p = p_switch
         self.dirs = trace_dirs
@@ -787,6 +850,7 @@ class Scheduler:
         i = len(self.threads)
         self.go.append(threading.Semaphore(0))
         self.done.append(False)
+        self.prio.append(self.rng.random() if self.policy == 'burst' else 0.0)
 
         def runner():
             self.go[i].acquire()
@@ -815,7 +879,17 @@ class Scheduler:
             frame.f_trace_opcodes = True
         if event == ('opcode' if self.opcodes else 'line'):
             self.steps += 1
-            if self.steps < self.cap and self.rng.random() < self.p:
+            if self.policy == 'burst':
+                name = frame.f_code.co_name
+                ks = self.points.get(name)
+                if ks is not None:
+                    c = self.site_count[name] = self.site_count.get(name, 0) + 1
+                    if c in ks and self.steps < self.cap:
+                        self.prio[self.current] = min(self.prio) - 1.0
+                        self.bursts += 1
+                        self.last_site = (name, frame.f_lineno)
+                        self.yield_()
+            elif self.steps < self.cap and self.rng.random() < self.p:
                 self.last_site = (frame.f_code.co_name, frame.f_lineno)
                 self.yield_()
         return self._local_trace
@@ -834,7 +908,12 @@ class Scheduler:
             alive = [i for i in range(n) if not self.done[i]]
             if not alive:
                 break
-            i = alive[self.rng.randrange(len(alive))]
+            if self.policy == 'burst':
+                # (a thread that waits for a lock somebody else still holds is not runnable)
+                cands = [j for j in alive if not (j in self.waiting and self.waiting[j].owner not in (None, j))] or alive
+                i = max(cands, key=lambda j: self.prio[j])
+            else:
+                i = alive[self.rng.randrange(len(alive))]
             if self.current is not None and i != self.current and self.last_site is not None:
                 self.sig.append((self.current, self.last_site[0], i))
             self.current = i
@@ -871,7 +950,10 @@ class SimLockModule:
                     mod.contended += 1
                     if mod.sched is None or not mod.sched.running:
                         raise RuntimeError('simulated lock held by a parked thread outside a scheduled run')
+                    mod.sched.waiting[me] = self
                     mod.sched.yield_()          # somebody else holds it: give the baton back and retry later
+                if mod.sched is not None:
+                    mod.sched.waiting.pop(me, None)
                 self.owner = me
                 self.count += 1
                 return True
@@ -1068,7 +1150,7 @@ def execute_threads(program, ctx, mode):
     zdir = os.path.dirname(os.path.abspath(zope.interface.__file__))
     opcodes = bool(W.get('opcodes'))
     sched = Scheduler(random.Random(W['sched_seed']), W['p_switch'] / (4.0 if opcodes else 1.0), [zdir],
-                      step_cap=16000 if opcodes else 4000, opcodes=opcodes)
+                      step_cap=16000 if opcodes else 4000, opcodes=opcodes, policy=W.get('policy', 'uniform'), points=W.get('points') or ())
     if opcodes:
         ctx.probe('opcode-granularity-run')
     simlocks.sched = sched
@@ -1082,6 +1164,9 @@ def execute_threads(program, ctx, mode):
     ctx.probe('scheduler-steps', sched.steps)
     ctx.probe('context-switches', len(sched.sig))
     ctx.probe('lock-contention', simlocks.contended)
+    if W.get('policy') == 'burst':
+        ctx.probe('burst-policy-run')
+        ctx.probe('burst-change-points-hit', sched.bursts)
     for s in sched.sig[:200]:
         ctx.sig(kinds[s[0]], s[1], kinds[s[2]])
     ctx.fault('preempt', len(sched.sig))
